@@ -169,8 +169,33 @@ def canonicalise(trace, size, sel, scenario, params, send_mode):
     return reqs
 
 
+from core import LEAN as VERIF_LEAN  # noqa: E402
+COLL_THEOREMS = ["Yaw.C06C.matched_completes", "Yaw.C06C.mismatch_stuck", "Yaw.C06C.bcast_agree",
+                 "Yaw.C06C.code_traces_match", "Yaw.C06C.code_table_covers", "Yaw.C06C.code_collectives_complete"]
+# functions whose collectives are outside the root/worker analysis (sub-communicator roles of MPI catalog creation)
+COLL_OUTSIDE = ("write_patches", "WorkerManager", "chunk_processing_task", "scatter_data_chunk", "writer_task")
+
+
+def collective_sites():
+    """(file:function, kind, line) of every collective call site in the generated traces, per role"""
+    import re
+    txt = (VERIF_LEAN / "YawVerif" / "Generated" / "Collective.lean").read_text()
+    table = {}
+    for m in re.finditer(r'\("([^"]+)", \[(.*?)\], \[(.*?)\]\)', txt):
+        name = m.group(1)
+        for role, toks in (("root", m.group(2)), ("worker", m.group(3))):
+            for t in re.findall(r'"((?:bcast|Bcast|barrier|gather)\([^"]*\)@\d+)"', toks):
+                kind, line = t.split("(")[0], int(t.rsplit("@", 1)[1])
+                table.setdefault((name, kind, line), set()).add(role)
+            # the broadcast method chosen at run time may be the communicator's own `bcast`, entered from this very line
+            for t in re.findall(r'"call:dynamic-bcast@(\d+)"', toks):
+                table.setdefault((name, "bcast", int(t)), set()).add(role)
+    return table
+
+
 def run(prop, tier, seed, replay):
-    ck = Check(prop, tier, seed, kernels=["k_mpi", "k_schedule"], theorems=THEOREMS, lean_modules=["YawVerif.Props.C06"],
+    ck = Check(prop, tier, seed, kernels=["k_mpi", "k_schedule", "k_collective"], theorems=THEOREMS + COLL_THEOREMS,
+               lean_modules=["YawVerif.Props.C06", "YawVerif.Props.C06Coll"],
                rule=RULE, level="proof",
                assumptions=["PARTIAL: mpi4py / a real MPI library is replaced by harness/fakempi (pickle transport, "
                             "non-overtaking per sender and tag, wildcard receives match any pending sender, eager or "
@@ -197,12 +222,13 @@ def run(prop, tier, seed, replay):
     try:
         sid = 0
         for sc in scen:
-            variants = ["centres", "ids", "auto"] if sc == "create" else (["few", "many"] if sc == "iter" else ["-"])
+            variants = ["centres", "ids", "auto", "hdf5", "pqt", "fits"] if sc == "create" else (["few", "many"] if sc == "iter" else ["-"])
             for var in variants:
                 # creation from 41 records: with chunk size 40 / 10 the last chunk holds ONE record, fewer than there
                 # are chunk-processing ranks
                 p0 = {"prebuilt": str(pre), "n": 40 if var == "centres" else 41, "seed": 5 + seed,
-                      "mode": var if sc == "create" else "centres",
+                      "mode": var if (sc == "create" and var in ("centres", "ids", "auto")) else "centres",
+                      "source": var if var in ("hdf5", "pqt", "fits") else None,
                       "chunksize": {"centres": rng.choice([9, 15, 40]), "ids": 40, "auto": 10}.get(var, 15), "ncent": 3,
                       "drop_meta": sc == "load",
                       "ntasks": 2 if var == "few" else 9}
@@ -245,6 +271,8 @@ def run(prop, tier, seed, replay):
         C.remove(root)
 
     reqs, req_meta = [], []
+    coll_table = collective_sites() if (VERIF_LEAN / "YawVerif" / "Generated" / "Collective.lean").exists() else {}
+    seen_sites = set()
     for job in jobs:
         jid = job["id"]
         sc, var, size, mw, names, sched, p, node_only = meta[jid]
@@ -291,6 +319,25 @@ def run(prop, tier, seed, replay):
                              f"(root {json.dumps({k: got_c.get(k) for k in diff})[:160]}, "
                              f"single process {json.dumps({k: ref_c.get(k) for k in diff})[:160]})", rep)
             continue
+        # ---- collectives: the call sites every rank went through vs the generated root / worker traces ------------------
+        cs = d.get("coll_sites", {})
+        # (outside the analysed functions only the KIND has to agree: e.g. the two `Split` calls of WorkerManager.get_comm)
+        world_seq = {r: [(k, "-" if (k == "split" or any(x in st for x in COLL_OUTSIDE)) else st) for c, k, st in v
+                         if c == "world"] for r, v in cs.items()}
+        if len({tuple(v) for v in world_seq.values()}) > 1:
+            ck.add_tie_break("ranks went through different collective call sites on the world communicator",
+                             {"job": jid, "per_rank": {r: v[:12] for r, v in world_seq.items()}})
+        for r, v in cs.items():
+            role = "root" if r == "0" else "worker"
+            for c, k, st in v:
+                if st == "-" or any(x in st for x in COLL_OUTSIDE) or k == "split":
+                    continue
+                fn, line = st.rsplit("@", 1)
+                key = (fn, k, int(line))
+                seen_sites.add(key)
+                if coll_table and role not in coll_table.get(key, ()):
+                    ck.add_tie_break("a collective call site executed in the simulated world is not in the generated trace "
+                                     f"of the {role} specialisation", {"job": jid, "rank": r, "site": st, "collective": k})
         # ---- model side: replay the event trace -------------------------------------------------------------------------
         sel = selected(size, mw, names, node_only)
         for kind, line, m in canonicalise(d["trace"], size, sel, sc, p, sched["send_mode"]):
@@ -311,6 +358,10 @@ def run(prop, tier, seed, replay):
                 ck.add_violation(f"exhaustive enumeration of the dispatch protocol on {j['size']} ranks / "
                                  f"{j['params']['ntasks']} task(s), {j['schedule']['send_mode']} sends: {o['count']} of "
                                  f"{d['schedules']} schedules end with {oc}", {"job": j, "bad": d["bad"][:2]})
+    if coll_table:
+        ck.extra["collective_sites_in_model"] = len(coll_table)
+        ck.extra["collective_sites_executed"] = len(seen_sites & set(coll_table))
+        ck.extra["collective_sites_never_executed"] = sorted(f"{a}:{b}@{c}" for a, b, c in set(coll_table) - seen_sites)
     ans = ck.driver("GenMpi", reqs)
     if ans is not None:
         for (jid, kind, m, got, rep), a, line in zip(req_meta, ans, reqs):
